@@ -27,3 +27,20 @@ Definition c01_rt_exact (S : schema) (c : string) (v : pv) (bs : bytes) : bool :
   | Ok v' => pv_eqb v' v && res_bytes_eqb (to_cbor S v') bs
   | _ => false
   end.
+
+(* ---------- C03: decode a whole transaction, re-encode its body, compare with the received slice ---------- *)
+Definition body_of (v : pv) : option pv := match v with VObj _ (b :: _) => Some b | _ => None end.
+Definition c03_model_ok (S : schema) (tx : bytes) (body : bytes) : bool :=
+  match from_cbor S "Transaction" tx with
+  | Ok v => match body_of v with
+            | Some b => res_bytes_eqb (to_cbor S b) body
+            | None => false
+            end
+  | _ => false
+  end.
+(* the slice really is the first element of the outer array (checked with the proved decoder) *)
+Definition c03_slice_ok (tx : bytes) (body : bytes) : bool :=
+  match decode3 tx with
+  | Some (CA (pb :: _)) => bytes_eqb (enc pb) body
+  | _ => false
+  end.
